@@ -214,6 +214,17 @@ def body_cli(E, B, f1, f2, f3, base):
             return real_grow(batch_number, crop=crop, **{**kw, "verbosity": 0})
 
         env._set(cp, "grow", recorder)
+        # the crop's function may live in a module next to the crop (pickled by reference): the parent directory
+        # has to be importable by the time the crop (and with it the function) is loaded
+        import xyzpy as _xyz
+
+        importable = []
+
+        def crop_factory(*a, **k):
+            importable.append(env.parent in sys.path)
+            return cp.Crop(*a, **k)
+
+        env._set(_xyz, "Crop", crop_factory)
         argv, environ, path = sys.argv, dict(_os.environ), list(sys.path)
         sys.argv = ["xyzpy-grow", "xy-z", "--parent-dir", env.parent, "--verbosity", "0"]
         env._set(cli, "print", lambda *a, **k: None)
@@ -227,6 +238,8 @@ def body_cli(E, B, f1, f2, f3, base):
                     del _os.environ[k]
             _os.environ.update(environ)
         if sorted(grown) != [i for i in range(1, B + 1) if i not in fin]:
+            return False
+        if importable != [True]:
             return False
         c2 = cp.Crop(name="xy-z", parent_dir=env.parent)
         return c2.is_ready_to_reap() and c2.reap() == ref
